@@ -65,6 +65,10 @@ pub fn build(t: &Value) -> BoxSource {
                 r.hash(&mut h);
                 let _ = h.finish();
               }
+              "clone" => {
+                // continue with a clone of the value built so far
+                r = r.clone();
+              }
               _ => {}
             }
           }
@@ -402,6 +406,17 @@ pub fn eqhash(v: &Value) -> Value {
   let r = catch_unwind(AssertUnwindSafe(|| {
     let a = build(&v["a"]);
     let b = build(&v["b"]);
+    if v["relation"].as_str() == Some("stable") {
+      // equality and hashes before and after an observer history on both values
+      let ab0 = a == b.clone();
+      let (ha0, hb0) = (hash_of(&a), hash_of(&b));
+      apply_history(&a, v["history"].as_array());
+      apply_history(&b, v["history_b"].as_array());
+      let ab1 = a == b.clone();
+      let ba1 = b == a.clone();
+      let (ha1, hb1) = (hash_of(&a), hash_of(&b));
+      return json!({"ab0": ab0, "ab1": ab1, "ba1": ba1, "hash_a0": ha0.to_string(), "hash_b0": hb0.to_string(), "hash_a1": ha1.to_string(), "hash_b1": hb1.to_string()});
+    }
     apply_history(&a, v["history"].as_array());
     let ab = a == b.clone();
     let ba = b == a.clone();
